@@ -82,11 +82,18 @@ class Matcher:
                 if bind[key] == node.id:
                     return True
                 # a plain alias (`b = a`) of the bound local denotes the same value
-                try:
-                    r = self.ctx.flow(self.fi).resolve(node)
-                except Exception:
-                    r = node
-                return isinstance(r, ast.Name) and r.id == bind[key]
+                flow = self.ctx.flow(self.fi)
+                cur = node
+                for _ in range(8):
+                    if not isinstance(cur, ast.Name):
+                        return False
+                    if cur.id == bind[key]:
+                        return True
+                    d = flow.single_def(cur)
+                    if d is None or d.kind not in ('assign', 'walrus') or not isinstance(d.value, ast.Name):
+                        return False
+                    cur = d.value
+                return False
             bind[key] = node.id
             return True
         # module-rooted dotted names: compare after alias resolution
